@@ -15,7 +15,8 @@ src = os.path.join(wt, sub, mk)
 dst = os.path.join("/verif/seeded", "%s_%s" % (pid, mk))
 os.makedirs(dst, exist_ok=True)
 for fn in ("patch.diff", "demo.py", "meta.json"):
-    shutil.copy(os.path.join(src, fn), os.path.join(dst, fn))
+    if not (fn == "meta.json" and os.environ.get("EVAL_CONFIRM_ONLY")):
+        shutil.copy(os.path.join(src, fn), os.path.join(dst, fn))
 env = dict(os.environ, PYTHONPATH=os.path.join(wt, "src"), PYTHONDONTWRITEBYTECODE="1")
 
 
@@ -48,7 +49,12 @@ res["demo_fails_with_patch"] = all(r != 0 for r in rcs)
 res["demo_with_patch"] = {"rcs": rcs, "tail": tail}
 # our check against the patched tree
 checks = {}
-for cid in [pid] + extra:
+if os.environ.get("EVAL_CONFIRM_ONLY"):
+    # redo the confirmation only (tests / demo); keep the recorded outcome of our checks
+    prev = json.load(open(os.path.join(dst, "meta.json"))).get("evaluation", {})
+    checks = prev.get("our_checks", {})
+    extra = []
+for cid in ([] if os.environ.get("EVAL_CONFIRM_ONLY") else [pid] + extra):
     t0 = time.time()
     p = subprocess.run("./check %s" % cid, shell=True, cwd="/verif", env=dict(os.environ, VERIF_REPO=wt),
                        stdout=subprocess.PIPE, stderr=subprocess.STDOUT, text=True)
